@@ -10,4 +10,5 @@ Definition magic_actual : mquirks := {|
   q_ts_hex_e_float := true;
   q_ts_bigint_dropped := true;
   q_ts_test_marker_anywhere := true;
+  q_ts_single_letter_const := true;
   q_rs_hex_suffix_clash := true |}.
